@@ -1314,7 +1314,17 @@ def illformed_family():
               lambda: N("must", [R0(), X()]), lambda: N("seq", [N("opt", [R0()]), X()]), lambda: N("until", [R0(), X()]), lambda: N("star", [R0(), X()]),
               lambda: N("plus", [N("seq", [R0(), X()])]), lambda: N("if_must", [R0(), X()]), lambda: N("opt_must", [R0(), X()]), lambda: N("list", [R0(), X()]),
               lambda: N("pad", [R0(), N("one", s="c")]), lambda: N("pad", [X(), R0()]), lambda: N("rep", [R0(), X()], n=2), lambda: N("rep_min_max", [R0()], min=0, max=2),
-              lambda: N("minus", [R0(), X()]), lambda: N("partial", [R0(), X()]), lambda: N("seq", [N("list_tail", [X(), R0()])])]
+              lambda: N("minus", [R0(), X()]), lambda: N("partial", [R0(), X()]), lambda: N("seq", [N("list_tail", [X(), R0()])]),
+              # every position that is evaluated at the start position when the rules before it fail / succeed without consuming
+              lambda: N("until", [X(), R0()]), lambda: N("until", [X(), N("opt", [Y()]), R0()]), lambda: N("until", [N("seq", [X(), Y()]), R0(), X()]),
+              lambda: N("sor", [Y(), N("until", [X(), R0()])]), lambda: N("until", [N("at", [X()]), R0()]),
+              lambda: N("rep_min", [R0(), X()], n=1), lambda: N("rep_max", [R0(), X()], n=2), lambda: N("rep_opt", [R0(), X()], n=2),
+              lambda: N("rep_min_max", [R0(), X()], min=1, max=2), lambda: N("star_must", [R0(), X()]), lambda: N("list_must", [R0(), X()]),
+              lambda: N("list_tail", [R0(), X()]), lambda: N("if_must_else", [R0(), X(), Y()]), lambda: N("if_must_else", [N("at", [X()]), R0(), Y()]),
+              lambda: N("if_must_else", [X(), Y(), R0()]),  # (strict / star_strict have no analyze_traits: they do not compile with analyze)
+              lambda: N("star_partial", [R0(), X()]), lambda: N("separated_seq", [R0(), X(), Y()]), lambda: N("separated_seq", [N("opt", [X()]), R0(), Y()]),
+              lambda: N("pad_opt", [R0(), X()]), lambda: N("pad_opt", [X(), R0()]), lambda: N("opt", [R0(), X()]), lambda: N("plus", [R0(), X()]),
+              lambda: N("try_catch_std_return_false", [R0(), X()]), lambda: N("try_catch_type_raise_nested", [N("seq", [R0(), X()])])]
     prefixes = [None, lambda: N("opt", [X()]), lambda: N("at", [X()]), lambda: N("star", [Y()]), lambda: N("success"), lambda: N("not_at", [Y()]),
                 lambda: N("sor", [Y(), N("success")]), lambda: N("bof"), lambda: N("rep_opt", [Y()], n=1)]
     for pl in places:
@@ -1410,6 +1420,8 @@ spec("C07", plan=plan_c07,
           "adversarial read pattern and buffer maxima 3 / 64, plus rapidcheck (input <= 40 bytes, a HISTORY of read sizes 1..9 the reader "
           "returns, buffer maximum in {1,2,3,5,8,16,64,4096}).  Oracle: (result | exception type+message+position, consumed length, "
           "action trace with spans as bytes and positions, hook trace with positions) equals the baseline's; std::overflow_error is the "
-          "only permitted deviation for the incremental inputs.  Non-trivial: buffer runs in which the reader was called again after "
+          "only permitted deviation for the incremental inputs, and for buffer_input only when the throwing request really needs more "
+          "than `maximum` bytes buffered after the last discard point (documented guarantee, doc/Inputs-and-Parsing.md 'Buffer Details'; "
+          "measured by a derived input class that shadows require/size/end/empty/discard).  Non-trivial: buffer runs in which the reader was called again after "
           "parsing had started, and file based runs; distinct = (grammar, input, read pattern, maximum).",
      assumptions=COMMON_ASSUME + ["discard is used only at the end of a top-level repetition element and only in runs without actions with input"])
